@@ -182,6 +182,44 @@ func (f *SecretFactory) VerifCreateRandom(size int, fill func([]byte) (int, erro
 func VerifDefaultMemcall() memcall.Interface { return memcall.Default }
 '''
 
+YIELD_FILES = {
+    # package key -> (directory under REPO, files, hook expression)
+    "appencryption": ("go/appencryption", ["key_cache.go", "session_cache.go"], "verifYield"),
+    "cache": ("go/appencryption/pkg/cache", ["cache.go"], "verifYield"),
+    "protectedmemory": ("go/securememory/protectedmemory", ["secret.go"], "verifYield"),
+    "memguard": ("go/securememory/memguard", ["secret.go"], "verifYield"),
+}
+
+YIELD_RE = re.compile(r"^(\s*)([\w.]+\.(?:Lock|RLock)\(\)|[\w.]+\.Wait\(\)|key\.increment\(\)|if c\.refs\.Add\(-1\) > 0 \{|c\.refs\.Add\(1\))\s*$")
+
+
+def instrument_yields(src, name):
+    out = []
+    for i, line in enumerate(src.split("\n"), 1):
+        m = YIELD_RE.match(line)
+        if m and not line.lstrip().startswith("defer"):
+            what = re.sub(r"[^A-Za-z.()]", "", m.group(2))[:24]
+            out.append('%sverifYield("%s:%d %s")' % (m.group(1), name, i, what))
+        out.append(line)
+    return "\n".join(out)
+
+
+HOOK_YIELD = '''//go:build verif
+
+package %s
+
+// verifYield is called at every synchronisation point inserted by the verification overlay.
+var verifYield = func(string) {}
+
+// VerifSetYield installs the schedule controller's hook (verification builds only).
+func VerifSetYield(f func(string)) {
+	if f == nil {
+		f = func(string) {}
+	}
+	verifYield = f
+}
+'''
+
 HOOK_KMSV1 = '''//go:build verif
 
 package kms
@@ -215,6 +253,7 @@ def make_overlay(tag="ov"):
     os.makedirs(d)
     repl = {}
     n = 0
+    done = set()
 
     def put(target, text):
         nonlocal n
@@ -241,7 +280,20 @@ def make_overlay(tag="ov"):
                 txt = re.sub(r'import \(\n', 'import (\n\tverifinternal "github.com/godaddy/asherah/go/appencryption/internal"\n',
                              txt, count=1)
             txt += "\nvar _ = time.Now\n"
+            if os.path.basename(rel) in ("key_cache.go", "session_cache.go", "cache.go"):
+                txt = instrument_yields(txt, os.path.basename(rel))
             put(src, txt)
+            done.add(src)
+    for pkg, (d0, files, _) in YIELD_FILES.items():
+        base = os.path.join(REPO, d0)
+        if not os.path.isdir(base):
+            continue
+        for f in files:
+            src = os.path.join(base, f)
+            if src in done or not os.path.exists(src):
+                continue
+            put(src, instrument_yields(open(src).read(), f))
+        put(os.path.join(base, "verif_yield.go"), HOOK_YIELD % {"appencryption": "appencryption", "cache": "cache", "protectedmemory": "protectedmemory", "memguard": "memguard"}[pkg])
     put(os.path.join(APPENC, "verif_hooks.go"), HOOK_APPENC)
     put(os.path.join(APPENC, "internal/verif_clock.go"), HOOK_INTERNAL)
     if os.path.isdir(os.path.join(SECMEM, "protectedmemory")):
